@@ -157,7 +157,7 @@ impl DetectProp for C02 {
                     let _ = ms.get_by_encoding(&format!(" {} ", a.to_uppercase()));
                 }
             }
-            for l in ["", " ", "utf-8", "UTF8", "nope", "\u{0}", "latin1", "ascii", "hz", "replacement", "\u{fffd}\u{10ffff}"] {
+            for l in ["", " ", "\"", "'", "\"\"", "utf-8", "UTF8", "nope", "\u{0}", "latin1", "ascii", "hz", "replacement", "\u{fffd}\u{10ffff}"] {
                 let _ = ms.get_by_encoding(l);
             }
             let _ = bytes.len();
